@@ -572,6 +572,15 @@ def main(run):
         if cs.groups:
             ngroups += evaluate(run, proto, cs, model, drv, stats, drv_san)
     stream_util.cleanup_sockets()
+    if run.tier == "thorough" and not replay:
+        # independent re-check of the compiled proofs (coqchk: kernel only, reports axioms)
+        rc, out = vlib.sh(["coqchk", "-silent", "-o", "-Q", ".", "LibcoapV", "LibcoapV.Properties_C05"],
+                          cwd=vlib.COQ, timeout=1800, check=False)
+        ok = rc == 0 and "* Axioms: <none>" in out
+        run.cov["coqchk"] = "ok, axioms: none" if ok else out[-600:]
+        if not ok:
+            run.violation("coqchk does not accept Properties_C05.vo (or finds axioms)", out[-4000:],
+                          tag="coqchk", no_input=True)
     run.cov["driver_crashes"] = stats["crashes"]
     run.cov["oracle_failures"] = stats["oracle"]
     run.cov["framing_oracle_failures"] = stats["frames"]
